@@ -2,6 +2,7 @@
 import json, os
 import vlib
 from checks import wirecommon as wc
+from checks import shapes
 
 
 def typed_fixed_point(ctx):
@@ -29,10 +30,13 @@ def run(ctx):
     cases = wc.tlc_modes(ctx, ["noncanon", "mutants", "trees"])
     n = wc.replay(ctx, cases, ["c18:"])
     tf = typed_fixed_point(ctx)
+    rows, _, _ = shapes.replay(ctx)
+    nacc = shapes.judge_c18(ctx, rows)
     acc = [c for c in cases if c["kind"] == "bytes" and c.get("accept")]
     ctx.finish("model_checking", {
-        "evaluations": n + tf["inputs"], "typed_inputs": tf["inputs"], "typed_inputs_accepted": tf["accepted"],
+        "evaluations": n + tf["inputs"] + nacc, "text_documents_accepted": nacc, "text_documents": len(rows),
+        "text_rule": "every XML / JSON document enumerated from TextShapes.tla (alternative notations and ~110 malformations per node of three base documents) that the typed decoder accepts is re-encoded in binary and in its own encoding, decoded and re-encoded again: no panic, both re-encodings accepted, second equals first", "typed_inputs": tf["inputs"], "typed_inputs_accepted": tf["accepted"],
         "distinct_nontrivial": len([c for c in acc if not c.get("strict")]),
         "rule": "inputs = the accepted ones among: non-canonical encodings (non-zero padding, over-long / unpadded big integers, booleans with other bits set, structures around them), every truncation and single-header corruption of 4 base encodings, all canonical trees; TLC checks Canon(Canon(x)) = Canon(x) and Parse(Canon(x)) = Parse(x) on Wire.tla; the library decodes each accepted input, re-encodes, decodes and re-encodes again: the second re-encoding must be byte-identical to the first and the re-encoding must be accepted; non-trivial = accepted but not canonical; plus, for typed targets, every whole message (27 operations x 2 directions) perturbed at every node (leaf value zeroed, unknown element appended, last child duplicated, first two children swapped) through decode / encode / decode / encode in binary, XML and JSON - the oracle there is the fixed-point property itself",
         "exhaustive": True, "cases_replayed_against_impl": n, "samples": acc[:3],
-    }, assumptions=["binary encoding only in this check; alternative XML / JSON lexical forms and the cross-encoding hops are not yet covered by a specification (DESIGN.md section 7)"])
+    }, assumptions=["XML / JSON inputs are single structured mutations of three base documents plus the typed perturbations; not arbitrary texts"])
